@@ -245,7 +245,7 @@ class Shard:
         except hypothesis.errors.Flaky as e:  # includes FlakyFailure
             if "rec" in last:
                 rec = dict(last["rec"])
-                rec["detail"] = (rec.get("detail") or "") + " [flaky under shrink]"
+                rec["detail"] = dict(detail=rec.get("detail"), note="not reproduced when Hypothesis re-ran the case (flaky)")
                 self.add_violation(rec)
             else:
                 raise HarnessError(f"flaky hypothesis test: {e}") from e
